@@ -493,22 +493,28 @@ class ConfigNode(metaclass=ConfigNodeMeta):
             return self
 
         if issubclass(type(other), type(self)): # simple case, plain dict/list replaces complex dict/list, promote complex
+            was_unsafe = not other.ayns.safe
             other.clear()
             if isinstance(other, list):
                 other.extend(self)
             else:
                 other.update(self)
             other.__dict__.update(self.__dict__)
+            if was_unsafe:
+                other._safe = False # the promoted node keeps what made it special (its target, its reference point): that stays unsafe
             return other
         elif issubclass(type(self), type(other)): # complex dict/list replaces simple dict/list, leave as is
             return self
         elif self._is_plain_composed() and not other._is_plain_composed():  # plain dict/list replaces complex list/dict, promote complex
+            was_unsafe = not other.ayns.safe
             other.clear()
             if isinstance(other, list):
                 other.extend(self.values())
             else:
                 other.update(enumerate(self))
             other.__dict__.update(self.__dict__)
+            if was_unsafe:
+                other._safe = False
             return other
         elif not self._is_plain_composed() and other._is_plain_composed(): # complex dict/list replaces simple list/dict, leave as is
             return self
